@@ -137,7 +137,7 @@ def run_case(case, rec):
             nm = type(e).__name__
             if nm in ('InfeasibleRegion', 'DomainError', 'NoEquilibrium'):
                 rec.refuse(f'{name}: {nm}'); return None
-            rec.exception(name.split(':')[0], e, what=f'{name} ({cls}, n={npos}) raised {nm}: {str(e)[:120]}'); return None
+            rec.exception(name.split(':')[0] + '/' + cls, e, what=f'{name} ({cls}, n={npos}) raised {nm}: {str(e)[:120]}'); return None
     Pb = call('bubble-residual:solve_Py', lambda: bp.solve_Py(z.copy(), T0))
     Tb = call('bubble-residual:solve_Ty', lambda: bp.solve_Ty(z.copy(), P0))
     Pd = call('dew-residual:solve_Px', lambda: dp.solve_Px(z.copy(), T0))
@@ -164,7 +164,14 @@ def run_case(case, rec):
         T, y = Tb; y = np.asarray(y, float)
         if Tlo < T < Thi:
             res, _ = bubble_residual(bp, z, T, P0, y)
-            rec.check(abs(res) <= 1e-6, 'bubble-residual', f'solve_Ty/{cls}', f'bubble temperature {T!r} at P={P0}: 1 - sum(y) recomputed = {res!r} (z={z.tolist()}, ids={ids})', residual=abs(res))
+            sfx = ''
+            if abs(res) > 1e-6:
+                # is the solver's own error function at a root here?  (the secant / IQ fallback run with checkiter=False)
+                try:
+                    zn = z / z.sum(); own = bp._T_error(T, P0, z / P0, zn, y.copy())
+                    if abs(own) > 1e-7 or not np.isfinite(own): sfx = '/unconverged-iterate'
+                except Exception: sfx = '/unconverged-iterate'
+            rec.check(abs(res) <= 1e-6, 'bubble-residual', f'solve_Ty/{cls}{sfx}', f'bubble temperature {T!r} at P={P0}: 1 - sum(y) recomputed = {res!r} (z={z.tolist()}, ids={ids})', residual=abs(res))
         else: rec.refuse('bubble temperature at the edge of the vapour-pressure domain (not judged)')
         rec.check(abs(y.sum() - 1) <= 1e-12 and (y >= 0).all(), 'normalised', 'solve_Ty', f'returned y {y.tolist()} sums to {y.sum()!r}')
     dew_bad = {}
@@ -178,30 +185,30 @@ def run_case(case, rec):
         dew_bad[mname] = st
         if st == 'ok':
             rec.ok('dew-residual', abs(res))
-            rec.check(abs(x.sum() - 1) <= 1e-12, 'normalised', mname, f'returned x {x.tolist()} sums to {x.sum()!r}')
+            rec.check(abs(x.sum() - 1) <= 1e-12, 'normalised', f'{mname}/{cls}', f'returned x {x.tolist()} sums to {x.sum()!r}')
         else:
-            rec.violation(f'C08/dew-residual/{mname}/{"unconverged-iterate" if st == "unconverged" else "converged-but-wrong"}',
+            rec.violation(f'C08/dew-residual/{mname}/{cls}/{"unconverged-iterate" if st == "unconverged" else "converged-but-wrong"}',
                           f'{mname}: returned {"P" if mname == "solve_Px" else "T"}={val!r} at {"T=%s" % T0 if mname == "solve_Px" else "P=%s" % P0}: the dew equation gives 1 - sum(x) = {res!r}, x={x.tolist()} '
                           f'(z={z.tolist()}, ids={ids}, class={cls}); status: {st}')
     def dew_sfx(*methods):
         return '/dew-unconverged' if any(dew_bad.get(m) == 'unconverged' for m in methods) else ''
     # ---- inverse relation
-    if Pb is not None:
+    if Pb is not None and 5e3 <= Pb[0] <= 3e6:
         r = call('inverse:solve_Ty(solve_Py)', lambda: bp.solve_Ty(z.copy(), Pb[0]))
-        if r is not None and Tlo + 1 < T0 < Thi - 1: rec.check(abs(r[0] - T0) <= 1e-4, 'inverse', f'bubble/{cls}', f'solve_Ty(z, solve_Py(z,{T0}).P={Pb[0]!r}).T = {r[0]!r}', residual=abs(r[0] - T0))
-    if Pd is not None:
+        if r is not None and Tlo + 1 < T0 < Thi - 1 and 5e3 <= Pb[0] <= 3e6: rec.check(abs(r[0] - T0) <= 1e-4, 'inverse', f'bubble/{cls}', f'solve_Ty(z, solve_Py(z,{T0}).P={Pb[0]!r}).T = {r[0]!r}', residual=abs(r[0] - T0))
+    if Pd is not None and 5e3 <= Pd[0] <= 3e6:
         r = call('inverse:solve_Tx(solve_Px)', lambda: dp.solve_Tx(z.copy(), Pd[0]))
         if r is not None and Tlo + 1 < T0 < Thi - 1:
             st2, _ = dew_status(dp, z, r[0], Pd[0], r[1], 'solve_Tx') if Tlo < r[0] < Thi else ('unconverged', 0)
             sfx = '/dew-unconverged' if (dew_bad.get('solve_Px') == 'unconverged' or st2 == 'unconverged') else ''
             if not sfx and abs(r[0] - T0) > 1e-4 and dew_bad.get('solve_Px') == 'ok' and st2 == 'ok':
                 sfx = '/multiple-roots'     # both points satisfy the dew equation at this pressure: two incipient liquids (partially miscible mixture)
-            rec.check(abs(r[0] - T0) <= 1e-4, 'inverse', f'dew{sfx}', f'solve_Tx(z, solve_Px(z,{T0}).P={Pd[0]!r}).T = {r[0]!r}', residual=abs(r[0] - T0))
+            rec.check(abs(r[0] - T0) <= 1e-4, 'inverse', f'dew/{cls}{sfx}', f'solve_Tx(z, solve_Px(z,{T0}).P={Pd[0]!r}).T = {r[0]!r}', residual=abs(r[0] - T0))
     # ---- bracketing
     if Pb is not None and Pd is not None:
-        rec.check(Pd[0] <= Pb[0] + 1e-3, 'bracket', 'P' + (dew_sfx('solve_Px') or ('/multiple-roots' if cls == 'cross-family' and dew_bad.get('solve_Px') == 'ok' else '')), f'dew pressure {Pd[0]!r} exceeds bubble pressure {Pb[0]!r} at T={T0} (z={z.tolist()}, ids={ids})')
+        rec.check(Pd[0] <= Pb[0] + 1e-3, 'bracket', f'P/{cls}' + (dew_sfx('solve_Px') or ('/multiple-roots' if cls == 'cross-family' and dew_bad.get('solve_Px') == 'ok' else '')), f'dew pressure {Pd[0]!r} exceeds bubble pressure {Pb[0]!r} at T={T0} (z={z.tolist()}, ids={ids})')
     if Tb is not None and Td is not None and Tlo < Tb[0] < Thi and Tlo < Td[0] < Thi:
-        rec.check(Tb[0] <= Td[0] + 1e-6, 'bracket', 'T' + (dew_sfx('solve_Tx') or ('/multiple-roots' if cls == 'cross-family' and dew_bad.get('solve_Tx') == 'ok' else '')), f'bubble temperature {Tb[0]!r} exceeds dew temperature {Td[0]!r} at P={P0} (z={z.tolist()}, ids={ids})')
+        rec.check(Tb[0] <= Td[0] + 1e-6, 'bracket', f'T/{cls}' + (dew_sfx('solve_Tx') or ('/multiple-roots' if cls == 'cross-family' and dew_bad.get('solve_Tx') == 'ok' else '')), f'bubble temperature {Tb[0]!r} exceeds dew temperature {Td[0]!r} at P={P0} (z={z.tolist()}, ids={ids})')
     # ---- permutation of the chemical list (fresh solver per permutation)
     n = len(ids)
     if n <= 4: perms = list(itertools.permutations(range(n)))[1:]
@@ -225,14 +232,14 @@ def run_case(case, rec):
             if Pd is not None:
                 r = dpp.solve_Px(zp.copy(), T0)
                 stp, _ = dew_status(dpp, zp, T0, r[0], r[1], 'solve_Px')
-                rec.check(abs(r[0] - Pd[0]) <= 1e-6 * Pd[0] + 1e-2, 'permutation', 'dew-P' + ('/dew-unconverged' if (stp == 'unconverged' or dew_bad.get('solve_Px') == 'unconverged') else ''), f'dew pressure depends on the order of the chemicals: {Pd[0]!r} vs {r[0]!r} for order {pid}')
+                rec.check(abs(r[0] - Pd[0]) <= 1e-6 * Pd[0] + 1e-2, 'permutation', f'dew-P/{cls}' + ('/dew-unconverged' if (stp == 'unconverged' or dew_bad.get('solve_Px') == 'unconverged') else ''), f'dew pressure depends on the order of the chemicals: {Pd[0]!r} vs {r[0]!r} for order {pid}')
             if Td is not None and Tlo < Td[0] < Thi:
                 r = dpp.solve_Tx(zp.copy(), P0)
                 stp, _ = dew_status(dpp, zp, r[0], P0, r[1], 'solve_Tx') if Tlo < r[0] < Thi else ('unconverged', 0)
-                rec.check(abs(r[0] - Td[0]) <= 1e-4, 'permutation', 'dew-T' + ('/dew-unconverged' if (stp == 'unconverged' or dew_bad.get('solve_Tx') == 'unconverged') else ''), f'dew temperature depends on the order of the chemicals: {Td[0]!r} vs {r[0]!r} for order {pid}')
+                rec.check(abs(r[0] - Td[0]) <= 1e-4, 'permutation', f'dew-T/{cls}' + ('/dew-unconverged' if (stp == 'unconverged' or dew_bad.get('solve_Tx') == 'unconverged') else ''), f'dew temperature depends on the order of the chemicals: {Td[0]!r} vs {r[0]!r} for order {pid}')
         except Exception as e:
             if type(e).__name__ in ('InfeasibleRegion', 'DomainError'): rec.refuse('permuted call refused'); continue
-            rec.exception('permutation', e, what=f'solver on the permuted list {pid} raised {type(e).__name__}: {str(e)[:100]}'); break
+            rec.exception(f'permutation/{cls}', e, what=f'solver on the permuted list {pid} raised {type(e).__name__}: {str(e)[:100]}'); break
     # ---- scale of z: through the public call form and through the solve_* methods
     k = case['k']
     for name, obj, kw, base in (('BubblePoint(z,T)', bp, {'T': T0}, Pb), ('BubblePoint(z,P)', bp, {'P': P0}, Tb), ('DewPoint(z,T)', dp, {'T': T0}, Pd), ('DewPoint(z,P)', dp, {'P': P0}, Td)):
@@ -247,7 +254,7 @@ def run_case(case, rec):
                 sa = dew_status(dp, z, T0 if 'T' in kw else a.T, a.P if 'T' in kw else P0, a.x, m_)[0]
                 sb = dew_status(dp, z, T0 if 'T' in kw else b.T, b.P if 'T' in kw else P0, b.x, m_)[0] if ('T' in kw or Tlo < b.T < Thi) else 'unconverged'
                 if 'unconverged' in (sa, sb): sfx = '/dew-unconverged'
-            rec.check(abs(va - vb) <= 1e-7 * abs(va), 'scale', f'call/{name}{sfx}', f'{name}: z gives {va!r} but {k}*z gives {vb!r}', detail={'z': z.tolist(), 'k': k, 'ids': ids})
+            rec.check(abs(va - vb) <= 1e-7 * abs(va), 'scale', f'call/{name}/{cls}{sfx}', f'{name}: z gives {va!r} but {k}*z gives {vb!r}', detail={'z': z.tolist(), 'k': k, 'ids': ids})
         except Exception as e:
             if type(e).__name__ in ('InfeasibleRegion', 'DomainError'): rec.refuse('scaled call refused'); continue
             rec.exception('scale', e, what=f'{name} with k*z raised {type(e).__name__}: {str(e)[:100]}')
